@@ -432,8 +432,13 @@ func (c *Ctx) checkFileAppenderSemantics(r *Report, ro *Roles, rule string) map[
 					fails = append(fails, e)
 				case "write":
 					writes = append(writes, e)
-				case "readdir", "remove":
-					fail("%s: the retention scan (%s %s) runs on the caller's goroutine", stp.what, e.op, e.path)
+				case "readdir":
+					// listing the directory while starting (to find the file to resume) delays no log call
+					if stp.op == "write" {
+						fail("%s: the directory scan (%s %s) runs on the caller's goroutine", stp.what, e.op, e.path)
+					}
+				case "remove":
+					fail("%s: files are removed (%s %s) on the caller's goroutine", stp.what, e.op, e.path)
 				}
 			}
 			for _, e := range append(append([]fsEvent{}, opens...), fails...) {
